@@ -380,6 +380,18 @@ func (e *Engine) pipelineObligations(prop string) []*Oblig {
 	var out []*Oblig
 	out = append(out, e.spawnWiring(prop)...)
 	switch prop {
+	case "C10":
+		out = append(out, e.writerFlush(prop, "/apps/rtcmfilter", "rtcmfilter")...)
+		out = append(out, e.configMapping(prop, "/apps/rtcmfilter", "rtcmfilter")...)
+	case "C11":
+		out = append(out, e.writerFlush(prop, "/apps/rtcmfilter", "rtcmfilter")...)
+		out = append(out, e.writerFlush(prop, "/apps/displayrtcm3", "displayrtcm3")...)
+	case "C16":
+		out = append(out, e.writerFlush(prop, "/apps/rtcmlogger", "rtcmlogger")...)
+	case "C19":
+		out = append(out, e.writerFlush(prop, "/apps/proxy", "the proxy packages")...)
+	}
+	switch prop {
 	case "C07", "C15":
 		out = append(out, e.lockRelease(prop, e.coneOf(extraRoots["C07"]), "the framing, decoding and display cone")...)
 	}
@@ -870,5 +882,143 @@ func (e *Engine) lockRelease(prop string, fns []*ssa.Function, what string) []*O
 	}
 	return []*Oblig{structOblig("lock-release/"+what, "lock-release",
 		fmt.Sprintf("every mutex locked in %s (%d lock sites) is unlocked again, explicitly or by a deferred call, on every path to a return", what, nlocks),
+		[]string{prop}, problems)}
+}
+
+// ---------------------------------------------------------------- writer-flush
+
+// writerFlush: a bufio.Writer created in a function of the application packages is flushed on
+// every path from its creation to a return of that function and to every os.Exit it can reach
+// (a deferred Flush does not run when the process exits through os.Exit).
+func (e *Engine) writerFlush(prop string, pkgFrag string, what string) []*Oblig {
+	var problems []string
+	n := 0
+	isFlushOf := func(cc *ssa.CallCommon, w ssa.Value) bool {
+		c := cc.StaticCallee()
+		return c != nil && c.Pkg != nil && c.Pkg.Pkg.Path() == "bufio" && c.Name() == "Flush" && len(cc.Args) > 0 && cc.Args[0] == w
+	}
+	for _, fn := range e.repoFunctions() {
+		if fn.Pkg == nil || !strings.Contains(fn.Pkg.Pkg.Path(), pkgFrag) {
+			continue
+		}
+		for _, b := range fn.Blocks {
+			for idx, ins := range b.Instrs {
+				c, ok := ins.(*ssa.Call)
+				if !ok {
+					continue
+				}
+				callee := c.Call.StaticCallee()
+				if callee == nil || callee.Pkg == nil || callee.Pkg.Pkg.Path() != "bufio" || !strings.HasPrefix(callee.Name(), "NewWriter") {
+					continue
+				}
+				n++
+				w := ssa.Value(c)
+				type pos struct {
+					b *ssa.BasicBlock
+					i int
+				}
+				seen := map[*ssa.BasicBlock]bool{}
+				stack := []pos{{b, idx + 1}}
+				deferred := false
+				for len(stack) > 0 {
+					p := stack[len(stack)-1]
+					stack = stack[:len(stack)-1]
+					flushed := false
+					for i := p.i; i < len(p.b.Instrs) && !flushed; i++ {
+						switch x := p.b.Instrs[i].(type) {
+						case *ssa.Call:
+							if isFlushOf(&x.Call, w) {
+								flushed = true
+							} else if c2 := x.Call.StaticCallee(); c2 != nil && c2.Pkg != nil && c2.Pkg.Pkg.Path() == "os" && c2.Name() == "Exit" {
+								problems = append(problems, fmt.Sprintf("%s: %s can reach os.Exit with the bufio.Writer created at %s unflushed (deferred calls do not run)", e.pos(x), fn.Name(), e.pos(ins)))
+								flushed = true
+							}
+						case *ssa.Defer:
+							if isFlushOf(&x.Call, w) {
+								deferred = true
+							}
+						case *ssa.Return:
+							if !deferred {
+								problems = append(problems, fmt.Sprintf("%s: %s can return with the bufio.Writer created at %s unflushed", e.pos(x), fn.Name(), e.pos(ins)))
+							}
+							flushed = true
+						}
+					}
+					if flushed {
+						continue
+					}
+					for _, s := range p.b.Succs {
+						if !seen[s] {
+							seen[s] = true
+							stack = append(stack, pos{s, 0})
+						}
+					}
+				}
+			}
+		}
+	}
+	return []*Oblig{structOblig("writer-flush/"+what, "writer-flush",
+		fmt.Sprintf("every bufio.Writer created in %s (%d) is flushed before the function returns or the process exits", what, n),
+		[]string{prop}, problems)}
+}
+
+// ---------------------------------------------------------------- config-mapping
+
+// configMapping: where a main-like function builds one configuration struct from another
+// (the user's file -> the configuration handed to the stages), a value loaded from field X of the
+// source is not stored into a differently named field of the target when the target has a field X
+// of its own.  (The stages are verified for the configuration they are given; this is the link
+// between that configuration and the user's.)
+func (e *Engine) configMapping(prop string, pkgFrag string, what string) []*Oblig {
+	var problems []string
+	n := 0
+	for _, fn := range e.repoFunctions() {
+		if fn.Pkg == nil || !strings.Contains(fn.Pkg.Pkg.Path(), pkgFrag) {
+			continue
+		}
+		for _, b := range fn.Blocks {
+			for _, ins := range b.Instrs {
+				st, ok := ins.(*ssa.Store)
+				if !ok {
+					continue
+				}
+				dst, ok := st.Addr.(*ssa.FieldAddr)
+				if !ok {
+					continue
+				}
+				if _, fresh := dst.X.(*ssa.Alloc); !fresh {
+					continue
+				}
+				dT, ok := derefType(dst.X.Type()).Underlying().(*types.Struct)
+				if !ok || !strings.Contains(strings.ToLower(derefType(dst.X.Type()).String()), "config") {
+					continue
+				}
+				ld, ok := st.Val.(*ssa.UnOp)
+				if !ok || ld.Op.String() != "*" {
+					continue
+				}
+				src, ok := ld.X.(*ssa.FieldAddr)
+				if !ok {
+					continue
+				}
+				sT, ok := derefType(src.X.Type()).Underlying().(*types.Struct)
+				if !ok {
+					continue
+				}
+				n++
+				dName, sName := dT.Field(dst.Field).Name(), sT.Field(src.Field).Name()
+				if dName == sName {
+					continue
+				}
+				for i := 0; i < dT.NumFields(); i++ {
+					if dT.Field(i).Name() == sName && types.Identical(dT.Field(i).Type(), sT.Field(src.Field).Type()) {
+						problems = append(problems, fmt.Sprintf("%s: %s stores %s of the source configuration into %s, although the target has a field %s of its own", e.pos(ins), fn.Name(), sName, dName, sName))
+					}
+				}
+			}
+		}
+	}
+	return []*Oblig{structOblig("config-mapping/"+what, "config-mapping",
+		fmt.Sprintf("where %s copies one configuration struct into another (%d field copies), a field is not filled from a differently named field that the target also has", what, n),
 		[]string{prop}, problems)}
 }
